@@ -32,6 +32,7 @@ var trUnits = []*trUnit{
 	{pkg: "lib/common/set", mod: "Set", funcs: []string{"Set.Add", "Set.Has", "Set.Remove"}},
 	{pkg: "lib/amounts", mod: "Amounts", funcs: []string{"AccountCommodityKey", "Amounts.Add"}},
 	{pkg: "lib/journal/check", mod: "Check", funcs: []string{"Checker.open", "Checker.posting", "Checker.balance", "Checker.close"}},
+	{pkg: "lib/common/table", mod: "Table", funcs: []string{"addThousandsSep", "TextRenderer.numToString"}},
 	{pkg: "lib/model/price", mod: "Price", funcs: []string{
 		"Multiply", "newNormalizedPrices", "Prices.addPrice", "Prices.Insert", "NormalizedPrices.Price", "NormalizedPrices.Valuate",
 		"Prices.normalize", "Prices.Normalize",
@@ -412,7 +413,7 @@ func (t *trTranslator) needPkgVar(u *trUnit, o *types.Var, pos token.Pos) {
 func trRun(repo string) (map[string]string, []string) {
 	l := newTrLoader(repo)
 	t := &trTranslator{l: l, units: trUnits, funcs: map[*types.Func]*trFunc{}, byUnit: map[*trUnit][]*trFunc{}, unitOf: map[string]*trUnit{},
-		decls: map[*trUnit][]string{}, declSeen: map[types.Object]bool{}, imports: map[*trUnit]map[*trUnit]bool{}}
+		decls: map[*trUnit][]string{}, declSeen: map[types.Object]bool{}, imports: map[*trUnit]map[*trUnit]bool{}, omitted: map[types.Object]map[string]bool{}}
 	files := map[string]string{}
 	for _, u := range trUnits {
 		t.unitOf[trKnutPath+u.pkg] = u
